@@ -1,6 +1,7 @@
 // C11 (heap half) — the timer double heap (src/event/event.c) against two sorted multisets, through the guarded
 // DISPATCH_VERIF shim. Stateful model-based: after every insert/remove/update the count, both minima, the heap order of
-// every slot, every record's back-indices and the invalidation of removed records are compared with the model.
+// every slot, every record's back-indices and the invalidation of removed records are compared with the model; and whenever the
+// earliest target / deadline of the armed set changes, the heap must have raised its "re-program the kernel timer" flag.
 #include <cstdint>
 #include <cstdio>
 #include <cstdlib>
@@ -19,6 +20,7 @@ void _dispatch_verif_heap_insert(void *, void *); void _dispatch_verif_heap_remo
 void _dispatch_verif_heap_update(void *, void *, uint64_t, uint64_t);
 uint32_t _dispatch_verif_heap_count(void *); void *_dispatch_verif_heap_slot(void *, uint32_t);
 uint32_t _dispatch_verif_heap_record_entry(void *, uint32_t); uint64_t _dispatch_verif_heap_record_key(void *, uint32_t);
+uint32_t _dispatch_verif_heap_take_needs_program(void *);
 }
 struct Rec { void *r; uint64_t k[2]; bool in; };
 struct HOp { uint8_t kind; uint16_t a, b, c; };
@@ -26,9 +28,23 @@ static std::string why; static std::vector<std::string> trace;
 static uint64_t n_eval, n_ops, n_enum; static std::unordered_set<uint64_t> distinct_nt; static std::map<std::string, uint64_t> classes; static std::vector<std::string> samples;
 struct Fail { std::string what, detail; }; static std::vector<Fail> fails;
 
+// "follows only the new settings / always fires": whenever the earliest target or the earliest deadline of the armed set changes (or the set becomes
+// empty / non-empty), the heap must ask for the kernel timer to be re-programmed; the flag is read and cleared after every operation
+static uint64_t prev_min[2]; static size_t prev_n; static uint64_t n_reprogram_needed;
+static void reset_prog(void *h) { prev_min[0] = prev_min[1] = 0; prev_n = 0; (void)_dispatch_verif_heap_take_needs_program(h); }
 static bool validate(void *h, std::vector<Rec> &recs) {
 	std::multiset<uint64_t> m[2]; size_t n = 0;
 	for (auto &x : recs) if (x.in) { m[0].insert(x.k[0]); m[1].insert(x.k[1]); n++; }
+	{
+		uint32_t np = _dispatch_verif_heap_take_needs_program(h);
+		uint64_t cur[2] = { n ? *m[0].begin() : 0, n ? *m[1].begin() : 0 };
+		bool changed = (n == 0) != (prev_n == 0) || (n && (cur[0] != prev_min[0] || cur[1] != prev_min[1]));
+		size_t pn = prev_n; uint64_t p0 = prev_min[0], p1 = prev_min[1];
+		prev_min[0] = cur[0]; prev_min[1] = cur[1]; prev_n = n;
+		if (changed) { n_reprogram_needed++;
+			if (!np) { why = "the earliest (target, deadline) of the armed timers changed from (" + (pn ? std::to_string(p0) + ", " + std::to_string(p1) : std::string("none")) + ") to (" +
+				(n ? std::to_string(cur[0]) + ", " + std::to_string(cur[1]) : std::string("none")) + ") but the heap did not ask for the kernel timer to be re-programmed"; return false; } }
+	}
 	uint32_t cnt = _dispatch_verif_heap_count(h);
 	if (cnt != 2 * n) { why = "heap count " + std::to_string(cnt) + " != 2 x " + std::to_string(n) + " armed timers"; return false; }
 	if (n == 0) return true;
@@ -51,7 +67,7 @@ static bool validate(void *h, std::vector<Rec> &recs) {
 	return true;
 }
 static bool run_ops(const std::vector<HOp> &ops, uint64_t range, bool *nt, uint64_t *hash) {
-	void *h = _dispatch_verif_heap_create(); std::vector<Rec> recs; trace.clear();
+	void *h = _dispatch_verif_heap_create(); std::vector<Rec> recs; trace.clear(); reset_prog(h);
 	bool ok = true; size_t maxlive = 0; bool rearm_while_many = false; uint64_t hh = range * 1099511628211ull;
 	for (size_t i = 0; i < ops.size() && ok; i++) {
 		const HOp &o = ops[i]; n_ops++;
@@ -81,7 +97,7 @@ static void enumerate_small() {
 		std::vector<int> perm(n); for (int i = 0; i < n; i++) perm[i] = i;
 		do {
 			for (int victim = 0; victim <= n; victim++) for (int upd = 0; upd < 3; upd++) {
-				void *h = _dispatch_verif_heap_create(); std::vector<Rec> recs; bool ok = true; trace.clear();
+				void *h = _dispatch_verif_heap_create(); std::vector<Rec> recs; bool ok = true; trace.clear(); reset_prog(h);
 				for (int i = 0; i < n && ok; i++) { uint64_t t = 1 + (ties ? perm[i] / 2 : perm[i]), d = 10 - (ties ? perm[i] / 2 : perm[i]); Rec x{ _dispatch_verif_heap_record_create(t, d), { t, d }, true }; _dispatch_verif_heap_insert(h, x.r); recs.push_back(x); ok = validate(h, recs); }
 				if (ok && victim < n) { if (upd == 0) { _dispatch_verif_heap_remove(h, recs[victim].r); recs[victim].in = false; }
 					else { uint64_t t = upd == 1 ? 0 : 99, d = upd == 1 ? 99 : 0; recs[victim].k[0] = t; recs[victim].k[1] = d; _dispatch_verif_heap_update(h, recs[victim].r, t, d); } ok = validate(h, recs); }
